@@ -236,7 +236,7 @@ class Run:
                     # keep the heavy context only for the first occurrence of a fingerprint
                     seen_fp.add(fp)
                     j = i
-                    while j > 0 and not any(('"ev":"%s"' % re_) in evs[j][:400] for re_ in (reset_events if not sticky else (sticky,))):
+                    while j > 0 and not any(('"ev":"%s"' % re_) in evs[j] for re_ in (reset_events if not sticky else (sticky,))):
                         j -= 1
                     x["_ctx"] = evs[j] if j != i else None
                     x["_event"] = evs[i]
